@@ -226,3 +226,54 @@ Definition record_steps_ok : bool :=
 Theorem record_steps_are_source : record_steps_ok = true.
 Proof. vm_compute. reflexivity. Qed.
 Print Assumptions record_steps_are_source.
+
+(* ---------------------------------------------------------------------------------------------- *)
+(* record1dot0 (Netconf.record10: the declaration off the front, the whitespace, the delimiter off
+   the end, the whitespace again) and recordRPCErrors (Netconf.carries_marker: ANY of the failure
+   markers ANYWHERE in the bytes it is given — the whole of them — marks the response failed; the
+   errors and warnings found are listed by severity) *)
+Fixpoint trace_eqb (a b : list (string * string)) : bool :=
+  match a, b with
+  | [], [] => true
+  | (k, v) :: a', (k', v') :: b' => String.eqb k k' && String.eqb v v' && trace_eqb a' b'
+  | _, _ => false
+  end.
+
+Definition rre_env (marker sev_error sev_warning : bool) : denv :=
+  mkEnvX (fun _ => false) (fun _ _ => false) (fun _ => "")
+         (fun a => if String.eqb a "util.ByteContainsAny(b, r.FailedWhenContains)" then Some marker
+                   else if String.eqb a "strings.Contains(errStr, ""<error-severity>error</error-severity>"")" then Some sev_error
+                   else if String.eqb a "strings.Contains(errStr, ""<error-severity>warning</error-severity>"")" then Some sev_warning
+                   else None)
+         (fun _ _ _ => None) (fun l => if String.eqb l "patterns.rpcSingleErrors.FindAll(b, -1)" then 1%nat else 0%nat) (fun _ _ => None).
+
+Definition rre_ok (marker e w : bool) : bool :=
+  match DecideLang.exec 30 (rre_env marker e w) record_rpc_errors_code [] with
+  | Returned st v => negb marker && String.eqb v "" && trace_eqb st []
+  | Running st =>
+      marker
+      && trace_eqb (rev st)
+           (app [("r.Failed", "&OperationError{ Input: string(r.Input), Output: r.Result, ErrorString: string(patterns.rpcErrors.Find(b)), }");
+                 ("rpcerr", ""); ("errStr", "string(rpcerr)")]
+                (if e then [("r.ErrorMessages", "append(r.ErrorMessages, errStr)")]
+                 else if w then [("r.WarningErrorMessages", "append(r.WarningErrorMessages, errStr)")] else []))
+  | _ => false
+  end.
+
+Definition record_rest_ok : bool :=
+  match DecideLang.exec 10 (rre_env false false false) record10_code [] with
+  | Running st =>
+      trace_eqb (rev st)
+        [("b", "r.RawResult"); ("b", "bytes.TrimPrefix(b, []byte(xmlHeader))");
+         ("b", "bytes.TrimSuffix(bytes.TrimSpace(b), []byte(v1Dot0Delim))"); ("r.Result", "string(bytes.TrimSpace(b))")]
+  | _ => false
+  end
+  && forallb (fun m => forallb (fun e => forallb (fun w => rre_ok m e w) [false; true]) [false; true]) [false; true]
+  && tests_known record10_code []
+  && tests_known record_rpc_errors_code
+       ["util.ByteContainsAny(b, r.FailedWhenContains)"; "strings.Contains(errStr, ""<error-severity>error</error-severity>"")";
+        "strings.Contains(errStr, ""<error-severity>warning</error-severity>"")"].
+
+Theorem record_rest_is_source : record_rest_ok = true.
+Proof. vm_compute. reflexivity. Qed.
+Print Assumptions record_rest_is_source.
